@@ -7,6 +7,12 @@ claimed = {
  "C15": ("Deductive proof, for all inputs and all aliasing of receiver/operands, of limb-level contracts on the real Go code of bandersnatch/fr: Montgomery multiplication (CIOS) and reduction, add/sub/neg/double/reduce, the small-constant multiplications, butterfly, comparison helpers and the exported wrappers; every obligation (postconditions, ghost round identities, index/nil safety, frame) is generated from go/ssa of the current tree and discharged by z3/cvc5.",
          "Assumed: amd64 assembly entry points satisfy the contracts proved for their portable Go counterparts (A5); math/bits contracts (A4); Inverse and Sqrt are bounded stand-ins, not proved; generator and solvers (A1, A2).",
          "DESIGN.md §8 C15", "contract-based deductive verification: weakest-precondition VCs over go/ssa, discharged by z3/cvc5"),
+ "C16": ("Deductive proof of byte-array <-> integer contracts on the real code: Bytes/BytesLE produce the big/little-endian encoding of the represented value; SetBytes, SetBytesLE, SetBigInt reduce the integer value of any byte string modulo r; SetBytesLECanonical succeeds exactly when the value is < r; no decoder writes the caller's slice (frame obligations); round trips and 'decode twice gives the same scalar' are proved as lemma functions over those contracts.",
+         "Assumed: math/big.Int, sync.Pool, encoding/binary contracts (A4); fromMont/mul assembly (A5); lemma L1 (big-endian value of a reversed string = little-endian value); generator and solvers.",
+         "DESIGN.md §8 C16", "contract-based deductive verification: weakest-precondition VCs over go/ssa, discharged by z3/cvc5"),
+ "C20": ("Deductive proof for all n >= 0 and all worker limits m >= 1 (NumCPU symbolic >= 1): loop invariant over the ghost coverage frontier shows the ranges handed to the goroutines are contiguous, disjoint, non-empty, within [0,n) and end at n; at most min(n,m) invocations; fork/join ghost protocol (rule R1) shows every goroutine calls the work function exactly once with its captured range, then Done once, that Wait is reached with counter == spawned, and that captured variables are not written after the go statement.",
+         "Assumed: sync.WaitGroup counter semantics and runtime.NumCPU() >= 1 (A4), soundness of the fork/join rule for the Go memory model (A6), work function cannot reach Execute's locals; interleavings are not enumerated.",
+         "DESIGN.md §8 C20", "contract-based deductive verification: loop invariants + fork/join ghost protocol over go/ssa, discharged by z3/cvc5"),
 }
 hooks=subprocess.run(['git','-C','/repo','log','--format=%H %s'],capture_output=True,text=True).stdout.strip().split('\n')
 hook_commits=[l.split()[0] for l in hooks if 'verif hook' in l]
